@@ -13,8 +13,23 @@ readers make into the standard library.  Validated against CPython by `py2lean_c
   alternative (which would make `finditer` report empty matches) is not a line ending and is skipped — the self-test
   compares with `re.finditer` of the real pattern, so a pattern with such an alternative is reported there.
   A text is the list of its code points.
+* `LineKey α` / `lineKey` — a caller-supplied predicate on lines (`indent(..., key=...)`): a PARAMETER of the generated
+  definition (type-class instance), assumed to be a pure function of the line.
+* `join sep parts` — `sep.join(parts)` on texts.
 -/
 namespace PyRtC19
+
+/-- the caller's predicate `key` on a line -/
+class LineKey (α : Type) where
+  key : List α → Bool
+
+def lineKey {α : Type} [LineKey α] (l : List α) : Bool := LineKey.key l
+
+/-- `sep.join(parts)` -/
+def join {α : Type} (sep : List α) : List (List α) → List α
+  | [] => []
+  | [l] => l
+  | l :: l2 :: ls => l ++ sep ++ join sep (l2 :: ls)
 
 /-- is the literal `lit` a prefix of `s`? -/
 def litAt : List Nat → List Nat → Bool
